@@ -30,7 +30,8 @@ RULE = ("job = seed -> scenario (version x flavour x options incl. client "
         "verdict"
         " The exhaustive grid also inserts copies (byte snapshots) of the peer's own first messages and a PROTECTED change_cipher_spec; abort-point oracle: after the first out-of-place message the victim may only send a fatal alert (a warning alert followed by carrying on is a violation)."
         ' Further inserted / replacing records: warning alert no_certificate, empty application_data; scenarios "certificate requested, client has none" and a 0-RTT offering client negotiated down to TLS 1.2 (early-data window).'
-        ' prot_ccs_pad: protected CCS carrying TLS 1.3 record padding.')
+        ' prot_ccs_pad: protected CCS carrying TLS 1.3 record padding.'
+        " The victim's transport may fail (timeout / EPIPE / reset) exactly while it writes its fatal alert.")
 LEVEL_TEXT = ("Seeded search over single deviations of every message index of "
               "the drawn handshake flavours; the legality table is written "
               "from the RFCs (ambiguous cases yield no verdict), the peer's "
@@ -46,7 +47,7 @@ PROBES = ["skip", "dup", "swap", "insert", "replace", "append",
           "reneg_hello_request", "second_handshake_call", "victim_client",
           "victim_server", "tls13", "legacy", "early_appdata", "early_ccs",
           "illegal_rejected", "legal_accepted", "wrong_epoch",
-          "protected_ccs"]
+          "protected_ccs", "alert_write_fault"]
 COMPONENTS_REAL = ["tlslite handshake state machines of both roles, "
                    "_getMsg expected-type logic, Defragmenter"]
 COMPONENTS_STUB = ["socket", "os.urandom", "clock",
@@ -376,6 +377,11 @@ def run(job, streams=None):
         return [ex]
 
     sim, pair, peer, vic, ip, mt = build(seed, sc, ch, victim, [rule])
+    # the victim's transport may fail exactly while it writes its fatal alert:
+    # an illegal sequence must still not complete
+    awf = [None, None, None, "timeout", "epipe", "reset"][
+        ch.draw(6, "cfg.awf")]
+    awf_tap = taps.AlertWriteFault(vic.conn, vic.sock, awf) if awf else None
     rt = taps.RecvTap(vic.conn)
     vst = taps.SendTap(vic.conn)
     vst.keep_plain = True
@@ -401,6 +407,8 @@ def run(job, streams=None):
                 delivered += bytes(o.value)
     completed = vo.kind == "ok"
     verdict = False
+    if awf_tap is not None and awf_tap.fired:
+        probes["alert_write_fault"] = 1
     if fired:
         if completed and not pre:
             verdict = True
